@@ -1697,6 +1697,65 @@ async fn relay_case(log: &mut Log, st: &mut Stats, rng: &mut Rng, case_no: u64) 
     w.shutdown().await;
 }
 
+
+// ------------------------------------------------------------------ C18: legacy / repeated-nonce duplicate dials
+
+/// Which session ACTORS are alive right now (not what `GetSessions` lists): `live` -> `k:0|1,…`.
+async fn op_live(w: &mut World, log: &mut Log, st: &mut Stats) {
+    quiesce().await;
+    quiesce().await;
+    let v: Vec<String> = w
+        .conns
+        .iter()
+        .map(|(k, c)| {
+            let alive = c.cell.as_ref().map(|c| (c.get_status() as u8) < (ractor::ActorStatus::Stopping as u8)).unwrap_or(false);
+            format!("{k}:{}", alive as u8)
+        })
+        .collect();
+    st.bump("lts_live_op");
+    log.rec("live", if v.is_empty() { "-".to_string() } else { v.join(",") });
+}
+
+/// A legacy peer (wire nonce 0) or a peer repeating its nonce dials the node 2-3 times under ONE name
+/// and completes every handshake (it knows the cookie). `check_session` cannot tell the sessions apart
+/// (same name, same nonce), so only the NodeServer's own election on `ConnectionAuthenticated` can
+/// close the duplicates: afterwards exactly ONE session actor of that peer may be alive on the
+/// accepting node — counted on the live actors (`live` op), not on `GetSessions`.
+async fn legacy_case(log: &mut Log, st: &mut Stats, rng: &mut Rng, case_no: u64) {
+    let short = format!("node{}", case_no % 3);
+    set_cookies("", "");
+    let mut w = World::new(&short, 800_000 + case_no, false, None).await;
+    log.rec(
+        format!("node {short} transitive=0 limit={} cookie={} wrong={}", ractor_cluster::DEFAULT_MAX_INBOUND_FRAME_SIZE, cookie(), wrong_cookie()),
+        "ok",
+    );
+    w.spawn_probe(true, Some(("sc", "g1"))).await;
+    w.spawn_probe(false, Some(("sc", "g1"))).await;
+    let nonce = *rng.pick(&[0u64, 0, 0, 7]);
+    let peer = *rng.pick(&["a@host", "zed@h", "Aa@h"]);
+    let dials = rng.range(2, 3);
+    let good = |c: u32| hex(&reference_digest(&cookie(), c));
+    st.bump(&format!("legacy_nonce_{nonce}"));
+    for k in 0..dials {
+        op_open(&mut w, log, st, k, true, rng.chance(1, 2)).await;
+        let sent = op_send(&mut w, log, st, k, &format!("name:{peer}:pc:{nonce}")).await;
+        if let Some(c) = last_challenge(&sent, true) {
+            op_send(&mut w, log, st, k, &format!("cchal:{}:{}", rng.below(1000), good(c))).await;
+            if rng.chance(1, 2) {
+                op_send(&mut w, log, st, k, "ready").await;
+            }
+        }
+        op_live(&mut w, log, st).await;
+    }
+    // the surviving session still works, a dead one does nothing
+    let rem = w.rem_now();
+    for k in 0..dials {
+        op_send(&mut w, log, st, k, &format!("cast:{}", rem.first().copied().unwrap_or(1))).await;
+    }
+    op_live(&mut w, log, st).await;
+    w.shutdown().await;
+}
+
 // ------------------------------------------------------------------ wire faults close one session only (C19)
 
 /// A full, correct handshake on connection `k` as a peer that knows the cookie; returns whether
@@ -1986,6 +2045,7 @@ async fn replay_ops(log: &mut Log, st: &mut Stats, path: &str) {
             }
             ["drop", k] if world.is_some() => op_drop(world.as_mut().unwrap(), log, st, k.parse().unwrap_or(0)).await,
             ["connects"] if world.is_some() => op_connects(world.as_mut().unwrap(), log, st).await,
+            ["live"] if world.is_some() => op_live(world.as_mut().unwrap(), log, st).await,
             ["declare", k, d, n] if world.is_some() => {
                 op_declare(world.as_mut().unwrap(), log, st, k.parse().unwrap_or(0), d.parse().unwrap_or(0), n.parse().unwrap_or(0)).await
             }
@@ -2019,7 +2079,13 @@ async fn run(args: Args) {
         replay_ops(&mut log, &mut st, f).await;
     }
     let wire_cases = args.u64("wire-cases", 0);
-    if tcp && wire_cases == 0 && args.u64("only-replay", 0) != 1 {
+    let legacy_cases = args.u64("legacy-cases", 0);
+    if legacy_cases > 0 {
+        // the C18 end-to-end engine for legacy / repeated-nonce duplicate dials
+        for c in 0..legacy_cases {
+            legacy_case(&mut log, &mut st, &mut rng, c).await;
+        }
+    } else if tcp && wire_cases == 0 && args.u64("only-replay", 0) != 1 {
         // only the end-to-end engine has a transport
         for c in 0..cases {
             lts_case(&mut log, &mut st, &mut rng, c).await;
